@@ -388,6 +388,24 @@ theorem sessOp_write_noRef (cfg : Cfg) (n : Node) (sid : Nat) (mode : Mode) (op 
       | none => exact h
       | some f => exact noRef_fabric_write n f f rfl h
 
+/-- SetVIDVerificationStatement stores the record or does nothing: fabric indices, sessions, records unchanged -/
+theorem sessOp_vvs_noRef (cfg : Cfg) (n : Node) (sid s : Nat) (mode : Mode) (h : NoRef n) :
+    NoRef (sessOp cfg n sid mode (.vvs s)).1 := by
+  simp only [sessOp]
+  split
+  · exact h
+  · cases hg : getFabric n mode.fab with
+    | none => exact h
+    | some f =>
+      simp only []
+      split
+      · exact h
+      · have ⟨s1, s2, s3⟩ := storeFabric_fields n f
+        rcases hst : storeFabric n f with ⟨n2, b⟩
+        rw [hst] at s1 s2 s3
+        simp only at s1 s2 s3
+        cases b <;> exact noRef_fields s1 s2 s3 h
+
 theorem sessOp_simple_noRef (cfg : Cfg) (n : Node) (sid : Nat) (mode : Mode) (op : Op) (h : NoRef n)
     (hop : (∃ s, op = .openW s) ∨ (∃ s u, op = .csr s u) ∨ (∃ s c, op = .root s c) ∨
            (∃ s v, op = .net s v) ∨ (∃ s v, op = .rmnet s v)) :
@@ -639,6 +657,7 @@ theorem sessOp_noRef (cfg : Cfg) (n : Node) (sid : Nat) (mode : Mode) (op : Op) 
   | grp s v => exact sessOp_write_noRef cfg n sid mode _ h (Or.inr (Or.inl ⟨s, v, rfl⟩))
   | label s v => exact sessOp_write_noRef cfg n sid mode _ h (Or.inr (Or.inr (Or.inl ⟨s, v, rfl⟩)))
   | fwrite s => exact sessOp_write_noRef cfg n sid mode _ h (Or.inr (Or.inr (Or.inr ⟨s, rfl⟩)))
+  | vvs s => exact sessOp_vvs_noRef cfg n sid s mode h
   | net s v => exact sessOp_simple_noRef cfg n sid mode _ h (Or.inr (Or.inr (Or.inr (Or.inl ⟨s, v, rfl⟩))))
   | rmnet s v => exact sessOp_simple_noRef cfg n sid mode _ h (Or.inr (Or.inr (Or.inr (Or.inr ⟨s, v, rfl⟩))))
   | complete s => exact sessOp_complete_noRef cfg n sid s mode h
